@@ -852,6 +852,11 @@ def run(ctx: Ctx) -> int:
         tally[key] = tally.get(key, 0) + 1
         if kind in ("escape", "oracle-crash"):
             fail("glue", "escape:" + det, case, f"Document() on {case}: {det} escaped from container loading")
+        elif kind == "elsewhere":
+            # the container loaded, but a member that could not be read left its objects out of the store and building
+            # the document stumbles over the gap: Document(path) still fails with a foreign exception - the caller the
+            # property speaks of (cat-numbers) crashes just the same
+            fail("glue", "escape-after-loading:" + det, case, f"Document() on {case}: {det} raised while the document was built from the loaded container")
         want = EXPECTED.get(case[0])
         if want and kind in ("ok", "lib") and det != want:
             fail("glue", f"wrong-class:{case[0]}", case, f"Document() on {case}: expected {want}, got {kind} {det}")
@@ -867,7 +872,7 @@ def run(ctx: Ctx) -> int:
         except Exception as e:  # noqa: BLE001
             kind, det = "oracle-crash", f"{type(e).__name__}: {e}"
         ctx.count("glue-debug-logging")
-        if kind in ("escape", "oracle-crash"):
+        if kind in ("escape", "oracle-crash", "elsewhere"):
             fail("glue", "escape-with-debug-logging:" + det, ["debug-logging", case], f"Document() on {case} with logging at DEBUG: {det} escaped from container loading")
     # ---------- the bundled command-line tool reports the problem instead of crashing
     for sig, case, detail in cli_oracle(ctx):
@@ -877,10 +882,6 @@ def run(ctx: Ctx) -> int:
         for sig, case, detail in fails[group]:
             ctx.oracle_fail(sig, case, detail)
     ctx.extra["failing_signatures"] = dict(sorted(per_sig.items()))
-    elsewhere = {k: v for k, v in tally.items() if "_elsewhere_" in k}
-    if elsewhere:
-        ctx.notes.append("foreign exceptions raised after container loading had finished (not in scope of C17, e.g. a damaged member that "
-                         f"fails the sniff is kept as an opaque blob and the document model later misses its objects): {elsewhere}")
     return common.finish(ctx, search)
 
 
@@ -1034,8 +1035,8 @@ def replay(path: str) -> int:
                 kind, det = glue_case(case, tmp)
         finally:
             shutil.rmtree(tmp, ignore_errors=True)
-        if kind == "escape":
-            bad = f"Document() on {case}: {det} escaped from container loading"
+        if kind in ("escape", "elsewhere"):
+            bad = f"Document() on {case}: {det} escaped from opening the document"
         elif EXPECTED.get(case[0]) and kind in ("ok", "lib") and det != EXPECTED[case[0]]:
             bad = f"Document() on {case}: expected {EXPECTED[case[0]]}, got {kind} {det}"
     if bad:
